@@ -550,6 +550,7 @@ def gen_pempw(ck, r, budget, samples):
             i = b.find(b"\n\n"); j = b.find(b"-----END")
             if 0 < i < j: b = b[:i + 2 + 88] + b"\n" + b[j:]
         for _ in range(r.choice([1, 1, 2, 3])):
+            if not b: b = bytearray(b"-")          # an earlier mutation emptied the buffer
             k = r.randrange(6); pos = r.randrange(len(b)) if b else 0
             hdr_zone = r.randrange(min(len(b), 120)) if b else 0
             if k == 0: b[hdr_zone] = r.choice([0, 10, 13, 44, 45, 58, 32, 71, 103, 255, r.randrange(256)])
